@@ -352,7 +352,7 @@ KindsOf(cause) ==
     [] cause = "W_MAXLEN"         -> {"Input"}
     [] cause = "W_SLACK"          -> {"Input"}
     [] cause = "R_TOO_LONG"       -> {"Input"}
-    [] cause = "R_TOO_LONG_PHASE" -> {"Input", "State(NotTurnToRead)", "State(HandshakeAlreadyFinished)"}
+    [] cause = "R_TOO_LONG_PHASE" -> {"State(NotTurnToRead)", "State(HandshakeAlreadyFinished)"}   \* out of phase: the state error (C11)
     [] cause = "R_TURN"           -> {"State(NotTurnToRead)"}
     [] cause = "R_FINISHED"       -> {"State(HandshakeAlreadyFinished)"}
     [] cause = "R_TURN_FINISHED"  -> {"State(NotTurnToRead)", "State(HandshakeAlreadyFinished)"}
@@ -367,5 +367,10 @@ KindsOf(cause) ==
     [] cause = "C_NOT_FINISHED"   -> {"State(HandshakeNotFinished)"}
     [] OTHER                      -> {"*"}     \* R_SHORT_*, R_AUTH_*, R_OUTBUF, T_R_SHORT, T_R_OUTBUF, T_R_AUTH
 
-KindsOfSet(causes) == UNION { KindsOf(c) : c \in causes }
+(* several conditions may hold at once; any of their kinds is then allowed (a re-ordering of guards among  *)
+(* input-validation conditions is not a property violation) - EXCEPT that an out-of-phase call always gets *)
+(* the documented state error (C11: "every out-of-phase call returns the documented state error")         *)
+KindsOfSet(causes) ==
+  IF "T_ONEWAY" \in causes THEN KindsOf("T_ONEWAY")
+  ELSE UNION { KindsOf(c) : c \in causes }
 =============================================================================
